@@ -125,6 +125,11 @@ while true do pcall(function() local c <close> = closer() while true do end end)
 local co = coroutine.wrap(function() local c <close> = closer() while true do end end) co() emit("unreachable")`},
 	{"gc-handler-loops", `setmetatable({}, {__gc = function() emit("gc-ran") while true do end end}) while true do local t = {} end`},
 	{"nested-callcontext-bigger", `while true do runtime.callcontext({kill = {cpu = 1e15}}, function() while true do end end) emit("outlived-nested-context") end`},
+	{"nested-callcontext-bigger-bulk-request", `while true do runtime.callcontext({kill = {cpu = 1e15}}, function() return #("x"):rep(1e7, ",") end) emit("outlived-nested-context") end`},
+	{"nested-callcontext-equal-bulk-request", `while true do local left = runtime.context().kill.cpu - runtime.context().used.cpu runtime.callcontext({kill = {cpu = left}}, function() return #("x"):rep(1e7, ",") end) emit("outlived-nested-context") end`},
+	{"nested-callcontext-bulk-in-coroutine", `while true do runtime.callcontext({kill = {cpu = 1e12, memory = 1e12}}, function() local co = coroutine.wrap(function() return #("x"):rep(1e7, ",") end) return co() end) emit("outlived-nested-context") end`},
+	{"pcall-bulk-request", `while true do emit("intercepted", pcall(string.rep, "x", 1e7, ",")) end`},
+	{"xpcall-bulk-request", `while true do emit("intercepted", xpcall(string.rep, function(m) emit("handler-ran") return m end, "x", 1e7, ",")) end`},
 	{"nested-callcontext-noquota", `while true do runtime.callcontext({}, function() while true do end end) emit("outlived-nested-context") end`},
 	{"metamethod-recursion", `local t = setmetatable({}, {__index = function(t, k) return t[k + 1] end}) pcall(function() return t[1] end) emit("after") while true do end`},
 	{"string-work-in-pcall", `local s = ("a"):rep(2000) while true do emit("find", pcall(string.find, s, "b", 1, true)) emit("rep", pcall(string.rep, "x", 100000)) emit("gsub", pcall(string.gsub, s, "a", "bb")) end`},
@@ -170,7 +175,7 @@ var unmetered = []struct{ name, src string }{
 func TestC05(t *testing.T) {
 	rec := ev.New("C05")
 	defer Finish(t, rec)
-	rec.Rule("(1) rapid-generated programs (general profile incl. pcall/xpcall/coroutines/to-be-closed handlers around loops): each is run once unlimited to get its CPU usage u and full trace, then under limits L in {1, 2, u/3, u-1, u, u+1, 2u} and a drawn L; oracle (metamorphic): killed <=> L <= u, used < L, the limited trace is a prefix of the unlimited one and equal with identical results when L > u, two runs agree (determinism), nothing runs after the kill. (2) 21 interception templates (infinite work wrapped in pcall/xpcall-handler/coroutine/__close/__gc/nested callcontext/metamethod/sort and gsub callbacks/load) under limits {1e3, 1e4, 1e5}: must end 'killed' with used < L and without the marker events that only run if the kill was intercepted. (3) 25 library calls with a size parameter N in {1e3 .. 2^40} under small CPU and memory limits: must come back (done, error or killed) within a watchdog. Non-trivial: u >= 50 and the kill point falls inside a pcall/coroutine/handler for some tested L, or a template; distinct by (program, L).")
+	rec.Rule("(1) rapid-generated programs (general profile incl. pcall/xpcall/coroutines/to-be-closed handlers around loops): each is run once unlimited to get its CPU usage u and full trace, then under limits L in {1, 2, u/3, u-1, u, u+1, 2u} and a drawn L; oracle (metamorphic): killed <=> L <= u, used < L, the limited trace is a prefix of the unlimited one and equal with identical results when L > u, two runs agree (determinism), nothing runs after the kill. (2) 26 interception templates (infinite work wrapped in pcall/xpcall-handler/coroutine/__close/__gc/nested callcontext/metamethod/sort and gsub callbacks/load) under limits {1e3, 1e4, 1e5}: must end 'killed' with used < L and without the marker events that only run if the kill was intercepted. (3) 25 library calls with a size parameter N in {1e3 .. 2^40} under small CPU and memory limits: must come back (done, error or killed) within a watchdog. Non-trivial: u >= 50 and the kill point falls inside a pcall/coroutine/handler for some tested L, or a template; distinct by (program, L).")
 	rec.Assume("real work between two counter increments is only observable as wall time: the watchdog (2 x 90 s) is astronomically loose and only detects work that is not metered at all for a program-chosen size; a watchdog hit is re-confirmed once before it is reported")
 	rec.Assume("__gc handlers: when Go's collector runs them is not controlled; templates only require that they do not outlive the kill")
 	progcheck.ApplyKnownFindings(rec)
